@@ -125,7 +125,26 @@ func init() {
 		"(time.Time).Local": func(fr *frame, a []value) value { return a[0] },
 		"(time.Time).Round": func(fr *frame, a []value) value { return a[0] },
 		"(time.Time).In":    func(fr *frame, a []value) value { return a[0] },
-		"(time.Time).Year":  func(fr *frame, a []value) value { return concreteTime(a[0], "Year").Year() },
+		"(time.Time).Year": func(fr *frame, a []value) value {
+			ns := timeNS(a[0])
+			if !isSym(ns) {
+				return concreteTime(a[0], "Year").Year()
+			}
+			// binary search over year boundaries (UTC), forking on the
+			// symbolic instant; instants of the clock model lie in 1970..2100
+			i := fr.i
+			lo, hi := 1970, 2100
+			for lo < hi {
+				mid := (lo + hi) / 2
+				b := time.Date(mid+1, 1, 1, 0, 0, 0, 0, time.UTC).UnixNano()
+				if i.truth("time.Year", binop(i, token.LSS, nil, ns, b)) {
+					hi = mid
+				} else {
+					lo = mid + 1
+				}
+			}
+			return lo
+		},
 		"(time.Time).Month": func(fr *frame, a []value) value { return int(concreteTime(a[0], "Month").Month()) },
 		"(time.Time).Day":   func(fr *frame, a []value) value { return concreteTime(a[0], "Day").Day() },
 		"(time.Time).Hour":  func(fr *frame, a []value) value { return concreteTime(a[0], "Hour").Hour() },
